@@ -197,3 +197,26 @@ func (c ColAuto) EncodeColumn(b *Buffer) {
 func (c ColAuto) WriteColumn(w *Writer) {
 	c.Data.WriteColumn(w)
 }
+
+// DecodeState implements StateDecoder for stateful inferred column.
+func (c ColAuto) DecodeState(r *Reader) error {
+	if s, ok := c.Data.(StateDecoder); ok {
+		return s.DecodeState(r)
+	}
+	return nil
+}
+
+// EncodeState implements StateEncoder for stateful inferred column.
+func (c ColAuto) EncodeState(b *Buffer) {
+	if s, ok := c.Data.(StateEncoder); ok {
+		s.EncodeState(b)
+	}
+}
+
+// Prepare implements Preparable for inferred column that needs it.
+func (c ColAuto) Prepare() error {
+	if v, ok := c.Data.(Preparable); ok {
+		return v.Prepare()
+	}
+	return nil
+}
